@@ -65,7 +65,7 @@ CHECKS = {
                  {"name": "VerifC03Schedules", "quick": {"appends": 2, "rolls": 1, "hwsets": 2, "preemptions": 1}, "thorough": {"appends": 2, "rolls": 1, "hwsets": 2, "preemptions": 2},
                   "replay": "interpreted", "max-paths": 1000000,
                   "covers": ["done"], "targets": ["commitLog).rollActiveSegment", "commitLog).Append", "committedReader).Read"]},
-                 {"name": "VerifC03HWWriters", "quick": {"msgs": 3, "preemptions": 1}, "thorough": {"msgs": 3, "preemptions": 2},
+                 {"name": "VerifC03HWWriters", "quick": {"msgs": 3, "preemptions": 1}, "thorough": {"msgs": 4, "preemptions": 1},
                   "replay": "interpreted", "max-paths": 1000000,
                   "covers": ["done"], "targets": ["commitLog).SetHighWatermark", "commitLog).notifyHWChange", "committedReader).Read"]},
                  {"name": "VerifC03Readonly", "quick": {"msgs": 3, "preemptions": 1, "merged": 1}, "thorough": {"msgs": 3, "preemptions": 2, "merged": 0},
